@@ -491,13 +491,26 @@ impl Check {
         // absorb in input order (deterministic)
         let threads = self.threads.max(1).min(inputs.len().max(1));
         let mut slots: Vec<Option<(CaseLog, CaseResult)>> = (0..inputs.len()).map(|_| None).collect();
+        let inflight: Vec<Option<PathBuf>> = (0..threads).map(|t| self.inflight_dir.as_ref().map(|d| d.join(format!("{name}.thread{t}.json")))).collect();
+        let inflight = &inflight;
+        let prop = self.property.as_str();
         std::thread::scope(|scope| {
             let handles: Vec<_> = (0..threads)
                 .map(|t| {
                     let case = &case;
                     std::thread::Builder::new()
                         .stack_size(256 << 20)
-                        .spawn_scoped(scope, move || (t..inputs.len()).step_by(threads).map(|i| (i, run_case(case, &inputs[i], false))).collect::<Vec<_>>())
+                        .spawn_scoped(scope, move || {
+                            (t..inputs.len())
+                                .step_by(threads)
+                                .map(|i| {
+                                    if let Some(path) = &inflight[t] {
+                                        write_inflight(path, prop, name, &inputs[i]);
+                                    }
+                                    (i, run_case(case, &inputs[i], false))
+                                })
+                                .collect::<Vec<_>>()
+                        })
                         .expect("spawn")
                 })
                 .collect();
@@ -562,7 +575,9 @@ impl Check {
             let _ = std::fs::copy(verif_root().join("harness").join("Cargo.lock"), &lock);
         }
         let out = std::process::Command::new("cargo")
-            .args(["+nightly", "fuzz", "run", target])
+            .args(["+nightly", "fuzz", "run", "--fuzz-dir"])
+            .arg(&fuzz_dir)
+            .arg(target)
             .arg(&corpus)
             .arg("--")
             .arg(format!("-runs={runs}"))
@@ -893,21 +908,47 @@ impl Check {
     }
 }
 
+thread_local! {
+    /// (path, open file, length written last time, text buffer) of this thread's in-flight file
+    static INFLIGHT: RefCell<Option<(PathBuf, std::fs::File, usize, String)>> = const { RefCell::new(None) };
+}
+
+/// Record the case a thread is about to run (a replay file), so that a supervisor can find it if the
+/// process is killed. The file is kept open per thread: one positioned write per case.
 pub fn write_inflight(path: &Path, property: &str, campaign: &str, choices: &[u64]) {
-    let mut s = String::with_capacity(64 + choices.len() * 21);
-    s.push_str("{\"property\":\"");
-    s.push_str(property);
-    s.push_str("\",\"campaign\":\"");
-    s.push_str(campaign);
-    s.push_str("\",\"key\":\"in-flight\",\"msg\":\"case in flight when the process died\",\"choices\":[");
-    for (i, c) in choices.iter().enumerate() {
-        if i > 0 {
-            s.push(',');
+    use std::os::unix::fs::FileExt;
+    INFLIGHT.with(|slot| {
+        let mut slot = slot.borrow_mut();
+        if !matches!(&*slot, Some((p, ..)) if p == path) {
+            let Ok(f) = std::fs::OpenOptions::new().create(true).write(true).truncate(true).open(path) else {
+                return;
+            };
+            *slot = Some((path.to_path_buf(), f, 0, String::new()));
         }
-        s.push_str(&c.to_string());
-    }
-    s.push_str("]}");
-    let _ = std::fs::write(path, s);
+        let Some((_, file, last_len, s)) = slot.as_mut() else {
+            return;
+        };
+        s.clear();
+        s.push_str("{\"property\":\"");
+        s.push_str(property);
+        s.push_str("\",\"campaign\":\"");
+        s.push_str(campaign);
+        s.push_str("\",\"key\":\"in-flight\",\"msg\":\"case in flight when the process died\",\"choices\":[");
+        for (i, c) in choices.iter().enumerate() {
+            if i > 0 {
+                s.push(',');
+            }
+            s.push_str(&c.to_string());
+        }
+        s.push_str("]}");
+        // trailing blanks are valid JSON: overwrite what is left of a longer predecessor
+        let len = s.len();
+        while s.len() < *last_len {
+            s.push(' ');
+        }
+        let _ = file.write_all_at(s.as_bytes(), 0);
+        *last_len = len;
+    });
 }
 
 pub fn key_matches(pattern: &str, key: &str) -> bool {
